@@ -20,6 +20,10 @@
 (*               exts     = sequence of chunk extensions [name, hasval, val]                   *)
 (*               trailers = sequence of header fields after the last chunk                     *)
 (*          | [k |-> "close", data]                   response only: body runs until close     *)
+(*          | [k |-> "bodiless", clen]                response only: 1xx, 204, 304 or the      *)
+(*               answer to a HEAD request: it ends at the blank line whatever its header       *)
+(*               fields say (RFC 7230 3.3.3 rule 1); clen >= 0: it nevertheless carries        *)
+(*               "Content-Length: clen" (3.3.2: the size a body would have), clen = -1: none   *)
 (*   ]                                                                                         *)
 (* Wire(msg) is its byte sequence; Content(msg) is what a parser must report for it.           *)
 EXTENDS Integers, Sequences, FiniteSets
@@ -63,20 +67,22 @@ StartLine(msg) == msg.start[1] \o <<SP>> \o msg.start[2] \o <<SP>> \o msg.start[
 HLine(h) == h.name \o <<":">> \o h.ows \o h.value \o CRLF
 HLines(hs) == Cat([i \in 1..Len(hs) |-> HLine(hs[i])])
 
-BodyData(b) == CASE b.k = "none" -> <<>>
+BodyData(b) == CASE b.k \in {"none", "bodiless"} -> <<>>
                  [] b.k \in {"fixed", "close"} -> b.data
                  [] b.k = "chunked" -> Cat([i \in 1..Len(b.chunks) |-> b.chunks[i].data])
 
 \* the header field that tells how the body is framed (none for "none" and "close")
 Framing(msg) == CASE msg.body.k = "fixed" -> <<[name |-> ContentLength, ows |-> msg.fows, value |-> Dec(Len(msg.body.data))]>>
                   [] msg.body.k = "chunked" -> <<[name |-> TransferEncoding, ows |-> msg.fows, value |-> Chunked]>>
+                  [] msg.body.k = "bodiless" /\ msg.body.clen >= 0 ->
+                         <<[name |-> ContentLength, ows |-> msg.fows, value |-> Dec(msg.body.clen)]>>
                   [] OTHER -> <<>>
 AllHeads(msg) == msg.heads \o Framing(msg)
 
 ExtWire(e) == <<";">> \o e.name \o (IF e.hasval THEN <<"=">> \o e.val ELSE <<>>)
 ExtsWire(es) == Cat([i \in 1..Len(es) |-> ExtWire(es[i])])
 ChunkWire(c) == Hex(Len(c.data)) \o ExtsWire(c.exts) \o CRLF \o c.data \o CRLF
-BodyWire(b) == CASE b.k = "none" -> <<>>
+BodyWire(b) == CASE b.k \in {"none", "bodiless"} -> <<>>
                  [] b.k \in {"fixed", "close"} -> b.data
                  [] b.k = "chunked" -> Cat([i \in 1..Len(b.chunks) |-> ChunkWire(b.chunks[i])])
                                        \o <<"0">> \o ExtsWire(b.lastexts) \o CRLF \o HLines(b.trailers) \o CRLF
